@@ -14,6 +14,7 @@ import DtailModel.Model.Discovery
 import DtailModel.Model.Color
 import DtailModel.Model.Command
 import DtailModel.Model.Base64
+import DtailModel.Model.Auth
 open Dtail
 
 structure Res where
@@ -347,6 +348,58 @@ def opC11Parse : List String → Res
     | none => bad
   | _ => bad
 
+/-! C09 -/
+
+def specKey (s : Bytes) : Option Key :=
+  match s with
+  | c :: rest => if c = 107 ∨ c = 111 ∨ c = 114 ∨ c = 120 then some rest else none   -- k o r x
+  | [] => none
+
+def opC09Keys : List String → Res
+  | [specs, _nl, offered] =>
+    let lines := if specs = "-" then [] else (specs.splitOn ",").map str
+    let acc := verifyAuthorizedKeys specKey lines (str offered)
+    let wanted := lines.any (fun l => specKey l = some (str offered))
+    let last := lines.getLast?.bind specKey
+    { m := if acc then "accept" else "reject", s := if wanted then "accept" else "reject",
+      t := joinWith "," ((if wanted then ["listed"] else []) ++ (if lines.any (fun l => (specKey l).isNone) then ["noise"] else [])
+        ++ (if last.isNone ∧ !lines.isEmpty then ["trailing-noise"] else []) ++ (if lines.length > 3 then ["long"] else [])) }
+  | _ => bad
+
+def parseJobs (s : String) : List Job × List Job :=
+  if s = "-" then ([], []) else
+  let js := (s.splitOn ";").filterMap fun j => match j.splitOn ":" with
+    | [k, n, a] => some (k, (⟨str n, if a = "" then [] else (a.splitOn "+").map str⟩ : Job))
+    | _ => none
+  ((js.filter (·.1 = "S")).map (·.2), (js.filter (·.1 = "C")).map (·.2))
+
+def opC09Password : List String → Res
+  | [u, pw, ip, jobs] => match unhex u, unhex pw, unhex ip with
+    | some u, some pw, some ip =>
+      let (sch, cont) := parseJobs jobs
+      let r := passwordCallback (fun a => [a]) sch cont u pw ip
+      let r := if r then "accept" else "reject"
+      { m := r, s := r, t := joinWith "," ((if r = "accept" then ["granted"] else [])
+          ++ (if u = Facts.healthUserBytes then ["health"] else if u = Facts.scheduleUserBytes then ["schedule"]
+              else if u = Facts.continuousUserBytes then ["continuous"] else ["other"])) }
+    | _, _, _ => bad
+  | _ => bad
+
+def opC09Health : List String → Res
+  | [h] => match unhex h with
+    | some cmd =>
+      let r := match decodeInner env10 cmd with
+        | .ok d => (match healthCommand d.name with
+            | .ok => "OK"
+            | .ack => if d.argc < 3 then "MSG" else "none"
+            | .error => "MSG")
+        | .err _ => "MSG"
+        | .panic p => "PANIC " ++ p
+      { m := r ++ ";data=0", s := (if r = "OK" ∨ r = "none" ∨ r = "MSG" then r else "no-reader") ++ ";data=0",
+        t := if r = "OK" then "ok" else if r = "MSG" then "rejected" else "-" }
+    | none => bad
+  | _ => bad
+
 def dispatch (line : String) : Res :=
   match (line.splitOn " ").filter (· ≠ "") with
   | "c01.reader" :: a => opC01Reader a
@@ -354,6 +407,9 @@ def dispatch (line : String) : Res :=
   | "c01.e2e" :: a => opC01E2E a
   | "c03.grep" :: a => opC03Grep a
   | "c03.e2e" :: a => opC03E2E a
+  | "c09.keys" :: a => opC09Keys a
+  | "c09.password" :: a => opC09Password a
+  | "c09.health" :: a => opC09Health a
   | "c10.decode" :: a => opC10Decode a
   | "c10.run" :: a => opC10Run a
   | "c12.roundtrip" :: a => opC12Roundtrip a
